@@ -55,14 +55,14 @@ reg(Prop("C16", ["Properties_C16"], [
 reg(Prop("C08", ["Properties_C08"], [
     Stream("dec1", "dec1", streamgen.dec1_cases, flavours=("rel", "dbg"),
            nontrivial=lambda c, l: c != "-",
-           rule="every initial byte x every buffer length 0..full+1; 1-byte arguments exhaustive, 2-byte exhaustive for halves / strided for ints, boundary+random 4/8-byte arguments incl. declared string lengths up to 2^64-1; exactly-sized heap blocks; a recording callback table (exactly one callback or none); non-trivial = non-empty buffer"),
+           rule="every initial byte x every buffer length 0..full+1; 1-byte arguments exhaustive, 2-byte exhaustive for halves / strided for ints, boundary+random 4/8-byte arguments incl. declared string lengths up to 2^64-1; exactly-sized heap blocks; a recording callback table (exactly one callback or none); every initial byte's smallest complete head followed by each of the 256 possible next bytes and by itself (a FINISHED result may not depend on bytes beyond read); non-trivial = non-empty buffer"),
 ], judge=judges.dec1_judge,
    level_note="Theorems about the model of streaming.c (dispatch table regenerated from the switch on every run, bridge lemma); model tied to the compiled code by the dec1 stream in release and ASan/UBSan builds"))
 
 reg(Prop("C09", ["Properties_C09"], [
     Stream("frag", "frag", streamgen.frag_cases, flavours=("rel", "dbg"),
            nontrivial=lambda c, l: " " in c and not l.startswith("- "),
-           rule="concatenations of enumerated / random items and raw head sequences x every single cut, byte-at-a-time, random cuts; the C client loop of hx calls the real decoder on exactly the buffered bytes; non-trivial = at least one cut and one event"),
+           rule="every ordered pair of head classes (major type x argument form, reserved bytes included) and every initial byte followed by itself, delivered one-shot / cut at the token boundary / cut inside the first head / byte-at-a-time; concatenations of enumerated / random items and raw head sequences x every single cut, byte-at-a-time, random cuts; the C client loop of hx calls the real decoder on exactly the buffered bytes; non-trivial = at least one cut and one event"),
 ], level_note="Theorem about the client model (PDrive.v) over the decoder model; the C client loop in hx.c is tied by the frag stream"))
 
 reg(Prop("C10", ["Properties_C10"], [
